@@ -47,9 +47,9 @@ def run(ctx):
     with ctx.rule('R06.2', 'parse only when complete, exactly once, in order; advance by the same size; errors return before the advance', floor=7) as r:
         rows = P.table(ctx, RF, ['self', 'stream', 'handler'])
         site = ctx.site(RF)
-        GE = '(std::slice::len(%s) >= %s.Some.0)' % (CHUNK, SIZE)
-        have = [x for x in rows if x.conds[:2] == [(SIZE, 'Some(_)'), (GE, True)]]
-        if not r.check('complete-frame-row', len(have) == 1 and len(have[0].conds) == 2, site, built=[x.cond_strs()[:2] for x in rows][:3], expected=[SIZE + ' ~ Some(_)', GE],
+        GE = '(std::slice::len(%s) < %s.Some.0)' % (CHUNK, SIZE)  # canonical: `len >= size` is (len < size) failing
+        have = [x for x in rows if x.conds[:2] == [(SIZE, 'Some(_)'), (GE, False)]]
+        if not r.check('complete-frame-row', len(have) == 1 and len(have[0].conds) == 2, site, built=[x.cond_strs()[:2] for x in rows][:3], expected=[SIZE + ' ~ Some(_)', '!' + GE],
                        why='non-strict comparison: the frame is handed on as soon as its last byte has arrived'):
             return
         x = have[0]
@@ -77,9 +77,9 @@ def run(ctx):
         site = ctx.site(PF)
         PARSE = 'amq_protocol::frame::parse_frame(buf)'
         got = sorted((tuple(x.cond_strs()), x.value_str()) for x in rows)
-        want = sorted([((PARSE + ' ~ Ok((_, _))', 'std::slice::is_empty(%s.Ok.0.0)' % PARSE), 'Ok(%s.Ok.0.1)' % PARSE),
-                       ((PARSE + ' ~ Ok((_, _))', '!std::slice::is_empty(%s.Ok.0.0)' % PARSE), 'errors::MalformedFrameSnafu::fail(errors::MalformedFrameSnafu)'),
-                       ((PARSE + ' ~ not Ok((_, _))',), 'errors::MalformedFrameSnafu::fail(errors::MalformedFrameSnafu)')])
+        want = sorted([((PARSE + ' ~ Ok(_)', 'is_empty(%s.Ok.0.0)' % PARSE), 'Ok(%s.Ok.0.1)' % PARSE),
+                       ((PARSE + ' ~ Ok(_)', '!is_empty(%s.Ok.0.0)' % PARSE), 'errors::MalformedFrameSnafu::fail(errors::MalformedFrameSnafu)'),
+                       ((PARSE + ' ~ Err(_)',), 'errors::MalformedFrameSnafu::fail(errors::MalformedFrameSnafu)')])
         for i, (g, w) in enumerate(zip(got, want)):
             r.eq('row%d' % i, g, w, site)
         r.check('rowcount', len(got) == 3, site, built=len(got))
